@@ -3,6 +3,7 @@ package rules
 import (
 	"fmt"
 	"go/constant"
+	"go/token"
 	"go/types"
 	"sort"
 	"strings"
@@ -24,6 +25,9 @@ func runC12(r *engine.Run) {
 	r.Rule("EXPORT-kind", "collectNodes replaces an unrequested node by a bare hash reference only when it is a branch; shared-prefix and value nodes are exported in full, because the importer overwrites the parent's embedded copy with what the export contains and a later delete needs the sibling's kind and key to merge")
 	r.Rule("AGREE-limits", "the two wire entry points (path export import and block-proof verification) configure the same CBOR decoding limits: a proof or export that one accepts is not rejected by the other for its size")
 	r.Rule("EXH-W", "see C09: markToCollect resolves a collapsed position before interpreting it")
+	r.Rule("ORDER-hashfresh", "see C10: in the Serialize methods of the hashed node kinds every read of a cached hash (the receiver's hash field, a child's Hash()) is reached only on paths where the receiver's dirty flag tested false or CalcHash() was called on the receiver: proofs and exported paths (which serialise nodes directly, possibly after an update and before the next Root()/Commit) never carry a stale hash")
+	r.Rule("DOM-marked", "in markToCollect every success return of the branch arm and of the shared-prefix arm is dominated by toCollect = true on that node: a node on the path of a requested key is exported in full also when the key is absent below it (a later insert of that key rewrites exactly this node)")
+	r.Rule("DOM-nodb", "resolve reaches the storage lookup only where t.db != nil tested (or resolveHashNode has a nil-error return under db == nil): a storage-less partial trie keeps an unresolved reference in the branch reduction of delete instead of failing where the full trie succeeds")
 	r.NotDec = append(r.NotDec, "root/weight equality after mirrored updates (value-level)", "the import-side hash checks (not necessary for honest exports)")
 	agreeBranches(r)
 	agreeEmbed(r)
@@ -31,6 +35,9 @@ func runC12(r *engine.Run) {
 	linkBack(r)
 	exportKind(r)
 	agreeLimits(r, "AGREE-limits")
+	orderHashFresh(r, "ORDER-hashfresh")
+	domMarked(r, "DOM-marked")
+	domNoDB(r, "DOM-nodb")
 }
 
 func exhWSubset(r *engine.Run, rule string, name string) {
@@ -316,12 +323,14 @@ func runC13(r *engine.Run) {
 	r.Rule("AGREE-rollback", "Rollback and RollbackTrie reset the same bookkeeping (created, tempDeleted, deleted) and both delete exactly the hashes in `created` through one batch")
 	r.Rule("AGREE-checkpoint", "the fields of the checkpoint written by SaveRoot (hash, weight of the current root) are exactly those Rollback restores the root from, and SaveRoot resets `created`")
 	r.Rule("DOM-created", "see C11: every node a commit writes is recorded as created (also at the collapse level), so that a rollback removes it from storage")
+	r.Rule("DEP-checkpoint", "in Rollback every condition that decides which root is installed, and every field of the restored root reference, is computed from the checkpoint (loads below t.oldRoot and constants) only - never from the state being rolled back (t.root, Weight())")
 	r.Rule("AGREE-created", "in each arm of commit a node's hash is recorded as created under the same 'hash changed' condition under which its previous hash is recorded as deleted: a node whose hash did not change existed at the checkpoint and must not be removed by a rollback")
 	r.NotDec = append(r.NotDec, "resolvability of every checkpoint node after rollback for every history (value-level)")
 	agreeRollback(r)
 	agreeCheckpoint(r)
 	agreeCreated(r)
 	domCreated(r, "DOM-created")
+	depCheckpoint(r, "DEP-checkpoint")
 }
 
 func bookkeepingResets(f *ssa.Function) (map[string]bool, bool, bool) {
@@ -667,4 +676,219 @@ func agreeLimits(r *engine.Run, rule string) {
 	}
 	r.Check(same && len(a) > 0, rule, "wmpt.Deserialize/VerifyBlockProof|DecOptions", r.P.Pos(v.Pos()), fmt.Sprintf("both decode with %v", a),
 		fmt.Sprintf("the export importer decodes with %v but the proof verifier with %v: honest proofs or exports of a deep or wide trie are rejected by one of them", a, b))
+}
+
+// domMarked: every node that markToCollect reaches on the path of a requested
+// key is marked for export, also when the key turns out to be absent below it:
+// a later insert of that key on the partial trie modifies exactly this node.
+func domMarked(r *engine.Run, rule string) {
+	f := wfn(r, rule, "markToCollect")
+	if f == nil {
+		return
+	}
+	var nodeP ssa.Value
+	for _, p := range f.Params {
+		if p.Name() == "node" {
+			nodeP = p
+		}
+	}
+	arms := typeArms(f, nodeP)
+	n := 0
+	for _, kind := range []string{"routingNode", "shortNode"} {
+		arm := arms[kind]
+		if arm == nil {
+			r.Anchor(rule, fmt.Errorf("unresolved anchor: *%s arm of markToCollect", kind))
+			continue
+		}
+		var marks []ssa.Instruction
+		engine.Instrs(f, func(in ssa.Instruction) {
+			st, ok := in.(*ssa.Store)
+			if !ok {
+				return
+			}
+			fa, ok := st.Addr.(*ssa.FieldAddr)
+			if !ok || fa.X != arm.asserted || engine.FieldOf(fa).Name() != "toCollect" {
+				return
+			}
+			if c, ok := st.Val.(*ssa.Const); ok && c.Value != nil && c.Value.ExactString() == "true" {
+				marks = append(marks, st)
+			}
+		})
+		o := ord{}
+		for _, ret := range engine.Returns(f) {
+			if !arm.blocks[ret.Block()] || len(ret.Results) != 2 || !nilConst(ret.Results[1]) {
+				continue
+			}
+			n++
+			good := false
+			for _, m := range marks {
+				if engine.InstrDominates(m, ret) {
+					good = true
+				}
+			}
+			r.Check(good, rule, o.next(fn(f)+"|*"+kind+" arm success"), r.P.Pos(ret.Pos()), "the node is marked (toCollect = true) before the arm returns successfully",
+				"a node on the path of a requested key is returned unmarked: it is exported as a bare hash, and an insert of that (absent) key fails or diverges on the partial trie")
+		}
+	}
+	if n < 3 {
+		r.Anchor(rule, fmt.Errorf("unresolved anchor: %d success returns in the branch/shared-prefix arms of markToCollect", n))
+	}
+}
+
+// domNoDB: a storage-less (partial) trie keeps an unresolved reference instead
+// of failing: resolve reaches the storage lookup only when t.db != nil tested,
+// or resolveHashNode itself has a nil-error return under db == nil.
+func domNoDB(r *engine.Run, rule string) {
+	f := wfn(r, rule, "resolve")
+	g := wfn(r, rule, "resolveHashNode")
+	if f == nil || g == nil {
+		return
+	}
+	dbNil := func(h *ssa.Function, b *ssa.BasicBlock) (known, isNil bool) {
+		atoms, ok := engine.AtomsOn(h, b)
+		if !ok {
+			return false, false
+		}
+		for _, blk := range h.Blocks {
+			iff, ok := blk.Instrs[len(blk.Instrs)-1].(*ssa.If)
+			if !ok {
+				continue
+			}
+			bo, ok := iff.Cond.(*ssa.BinOp)
+			if !ok || (bo.Op != token.EQL && bo.Op != token.NEQ) || !nilConst(bo.Y) {
+				continue
+			}
+			if fld := fieldLoadOf(bo.X); fld == nil || fld.Name() != "db" {
+				continue
+			}
+			key, pos := engine.CondAtom(iff.Cond)
+			if t, had := atoms[key]; had {
+				condTrue := t == pos
+				return true, (bo.Op == token.EQL) == condTrue
+			}
+		}
+		return false, false
+	}
+	n := 0
+	engine.Instrs(f, func(in ssa.Instruction) {
+		c, ok := in.(*ssa.Call)
+		if !ok || c.Call.StaticCallee() != g {
+			return
+		}
+		n++
+		known, isNil := dbNil(f, c.Block())
+		good := known && !isNil
+		if !good {
+			// alternative: resolveHashNode tolerates a missing store
+			for _, ret := range engine.Returns(g) {
+				if len(ret.Results) == 2 && nilConst(resultValue(ret, 1)) {
+					if k, isN := dbNil(g, ret.Block()); k && isN {
+						good = true
+					}
+				}
+			}
+		}
+		r.Check(good, rule, fn(f)+"|storage lookup", r.P.Pos(c.Pos()), "the storage lookup is reached only with a store present (db != nil tested); without one the reference is kept unresolved",
+			"resolve consults the store without testing that the trie has one: on a partial trie (no store) the branch reduction of delete fails where the full trie succeeds, so the two diverge")
+	})
+	if n < 1 {
+		r.Anchor(rule, fmt.Errorf("unresolved anchor: call of resolveHashNode in resolve"))
+	}
+}
+
+// depCheckpoint: what Rollback installs as the root is decided by, and built
+// from, the checkpoint only (never the state being rolled back).
+func depCheckpoint(r *engine.Run, rule string) {
+	f := wfn(r, rule, "Rollback")
+	if f == nil {
+		return
+	}
+	// onlyCheckpoint: v is computed from constants and loads below t.oldRoot
+	var onlyCk func(v ssa.Value, depth int) (bool, string)
+	onlyCk = func(v ssa.Value, depth int) (bool, string) {
+		if depth > 8 {
+			return false, "too deep"
+		}
+		switch x := v.(type) {
+		case *ssa.Const:
+			return true, ""
+		case *ssa.BinOp:
+			if ok, why := onlyCk(x.X, depth+1); !ok {
+				return false, why
+			}
+			return onlyCk(x.Y, depth+1)
+		case *ssa.UnOp:
+			if x.Op == token.MUL {
+				if strings.Contains(engine.AddrPath(x.X), "oldRoot") {
+					return true, ""
+				}
+				return false, "reads " + engine.AddrPath(x.X)
+			}
+			return onlyCk(x.X, depth+1)
+		case *ssa.Call:
+			if b, ok := x.Call.Value.(*ssa.Builtin); ok && b.Name() == "len" {
+				return onlyCk(x.Call.Args[0], depth+1)
+			}
+			return false, "calls " + engine.CalleeName(x)
+		case *ssa.ChangeType:
+			return onlyCk(x.X, depth+1)
+		case *ssa.Convert:
+			return onlyCk(x.X, depth+1)
+		}
+		return false, fmt.Sprintf("%T", v)
+	}
+	n := 0
+	o := ord{}
+	engine.Instrs(f, func(in ssa.Instruction) {
+		st, ok := in.(*ssa.Store)
+		if !ok {
+			return
+		}
+		fld := engine.FieldOf(st.Addr)
+		if fld == nil || fld.Name() != "root" {
+			return
+		}
+		n++
+		// the conditions that decide whether this store executes
+		bad := ""
+		for _, b := range f.Blocks {
+			iff, ok := b.Instrs[len(b.Instrs)-1].(*ssa.If)
+			if !ok {
+				continue
+			}
+			decides := false
+			for k := range b.Succs {
+				if engine.EdgeDominates(b, k, st.Block()) != engine.EdgeDominates(b, 1-k, st.Block()) {
+					decides = true
+				}
+			}
+			if !decides {
+				continue
+			}
+			if ok, why := onlyCk(iff.Cond, 0); !ok {
+				bad = "the condition at " + r.P.Pos(iff.Pos()) + " " + why
+			}
+		}
+		// a restored reference is built from the checkpoint's fields
+		if mi, ok := st.Val.(*ssa.MakeInterface); ok {
+			if al, ok := mi.X.(*ssa.Alloc); ok {
+				for _, ref := range engine.Referrers(al) {
+					if fa, ok := ref.(*ssa.FieldAddr); ok {
+						for _, r2 := range engine.Referrers(fa) {
+							if s2, ok := r2.(*ssa.Store); ok && s2.Addr == ssa.Value(fa) {
+								if ok, why := onlyCk(s2.Val, 0); !ok {
+									bad = "field " + engine.FieldOf(fa).Name() + " of the restored root " + why
+								}
+							}
+						}
+					}
+				}
+			}
+		}
+		r.Check(bad == "", rule, o.next(fn(f)+"|store root"), r.P.Pos(st.Pos()), "decided by and built from the checkpoint (oldRoot) only",
+			"what Rollback installs as the root depends on the state being rolled back ("+bad+"): after a commit that deleted every key, or from an empty checkpoint, the checkpoint is not restored")
+	})
+	if n < 2 {
+		r.Anchor(rule, fmt.Errorf("unresolved anchor: %d stores to root in Rollback", n))
+	}
 }
